@@ -603,11 +603,11 @@ class AsyncDispatcher(BaseDispatcher, Generic[ContextType]):
                         error=pjrpc.exceptions.InvalidRequestError(data="batch too large"),
                     )
                 else:
-                    responses = [
-                        resp
-                        for resp in await asyncio.gather(*(self._request_handler(req, context) for req in request))
-                        if resp
-                    ]
+                    if self._concurrent_batch:
+                        results = await asyncio.gather(*(self._request_handler(req, context) for req in request))
+                    else:
+                        results = [await self._request_handler(req, context) for req in request]
+                    responses = [resp for resp in results if resp]
                     # a batch of notifications is not answered at all (an empty array is not a valid response)
                     response = self._batch_response(*responses) if responses else UNSET
             else:
